@@ -90,23 +90,12 @@ out:
     return ret;
 
 out_error:
-    printf ("ERROR in encode\n");
-    if (encoded_data) {
-        for (i = 0; i < k; i++) {
-            if (encoded_data[i])
-                free_fragment_buffer(encoded_data[i]);
-        }
-        check_and_free_buffer(encoded_data);
-    }
-
-    if (encoded_parity) {
-        for (i = 0; i < m; i++) {
-            if (encoded_parity[i])
-                free_fragment_buffer(encoded_parity[i]);
-        }
-        check_and_free_buffer(encoded_parity);
-    }
-
+    /*
+     * The fragments allocated so far and the two arrays belong to the caller,
+     * liberasurecode_encode(), which releases them on error; freeing them here
+     * as well released every buffer twice.
+     */
+    log_error("Could not allocate fragment buffers for encode!");
     goto out;
 }
 
